@@ -698,6 +698,23 @@ pub fn build(raw: &RawProg, cfg: &GenCfg) -> (Prog, FixStats) {
             tasks[parent].ops.insert(jpos, Op::Join(child));
         }
     }
+    // Threads family: a scope whose body blocks on something the scoped threads do not release — the join of a
+    // plain thread spawned earlier is moved right behind the Scope op (the interpreter then joins inside the body)
+    if cfg.family == Family::Threads {
+        for t in tasks.iter_mut() {
+            let Some(sp) = t.ops.iter().position(|o| matches!(o, Op::Scope(_))) else { continue };
+            let cand = t.ops.iter().enumerate().position(|(q, o)| match o {
+                Op::Join(c) => q > sp + 1 && t.ops[..sp].iter().any(|x| matches!(x, Op::Spawn(c2) if c2 == c)),
+                _ => false,
+            });
+            if let Some(q) = cand {
+                if q > 0 && !matches!(t.ops[q - 1], Op::SkipUnlessLast(..)) && (q + sp) % 2 == 0 {
+                    let j = t.ops.remove(q);
+                    t.ops.insert(sp + 1, j);
+                }
+            }
+        }
+    }
     // resolve handle-op markers: pick among the children of this task that are async; drop if none
     for ti in 0..nt {
         let children: Vec<usize> = spawn_pos.iter().filter(|(p, _, c)| *p == ti && kinds[*c] == TaskKind::Async).map(|(_, _, c)| *c).collect();
